@@ -131,8 +131,22 @@ def _more_uses(qr, case, eso, time, ham, rho0, nt):
         i0, stride, count = case["tlist"]
         idx = [i for i in range(i0 % nt, nt, stride)][:count]
     if len(idx) >= 2:
-        res = eso.apply([float(time.data[i]) for i in idx], ReducedDensityMatrix(data=rho0.copy()))
+        # the documented forms of "several times": list, tuple, array, a TimeAxis, or the string "all"
+        form = ["list", "tuple", "array", "axis", "all"][(case["tlist"][0] + case["tlist"][1] + case["tlist"][2]) % 5]
+        times = [float(time.data[i]) for i in idx]
+        if form == "tuple":
+            arg = tuple(times)
+        elif form == "array":
+            arg = numpy.array(times)
+        elif form == "axis":
+            arg = qr.TimeAxis(times[0], len(times), float(time.step) * (idx[1] - idx[0]))
+        elif form == "all":
+            arg, idx = "all", list(range(nt))
+        else:
+            arg = times
+        res = eso.apply(arg, ReducedDensityMatrix(data=rho0.copy()))
         extra["list"] = (idx, numpy.array(res.data))
+        extra["form"] = form
     if case.get("in_basis"):
         rin = ReducedDensityMatrix(data=rho0.copy())
         with qr.eigenbasis_of(ham):
@@ -153,7 +167,7 @@ def _check_more(ctx, extra, data, applied, tag):
         else:
             ctx.close("apply-list-of-times", got, applied[idx], rtol=1e-9, scale=max(1.0, float(numpy.max(numpy.abs(applied)))),
                       where=tag, first_index=idx[0])
-        ctx.label("apply-list:first=%s" % ("0" if idx[0] == 0 else ">0"))
+        ctx.label("apply-list:first=%s" % ("0" if idx[0] == 0 else ">0"), "apply-form:" + extra.get("form", "list"))
     if "in_basis" in extra:
         dat_in, outs, rho_in, seen, dat_after = extra["in_basis"]
         nt, dim = dat_in.shape[0], dat_in.shape[1]
